@@ -88,6 +88,9 @@ fuzz_target!(|data: &[u8]| {
             if let Err(w) = &c.reports {
                 violation("C02", "C02|reports-differ", w, &e.name, &payload, &Script::all_continue(), src);
             }
+            if let Err(w) = &c.final_reports {
+                violation("C02", "C02|final-error-differs", w, &e.name, &payload, &Script::all_continue(), src);
+            }
         }
     }
 });
